@@ -1,46 +1,18 @@
-"""Per-property configuration of bin/check: harness sources, tiers, evidence text."""
+"""Per-property configuration of bin/check.  One file per property in bin/props.d/<ID>.py,
+each defining a dict P (harness sources, tiers, evidence text) -- see bin/props.d/C15.py."""
+import glob, importlib.util, os, sys
 
-COMMON_ASSUME = [
-    "libvna is rebuilt from the working tree with clang -O1, ASan+UBSan+LSan, asserts on; behaviour under other compilers/optimisation levels is not explored",
-    "the tape engine (harness/common/pbt*.{hpp,cpp}) generates, replays and shrinks cases faithfully",
-]
-
-
-def tiers(quick, thorough):
-    return {"quick": quick, "thorough": thorough}
-
+_here = os.path.dirname(os.path.abspath(__file__))
+sys.path.insert(0, _here)
+from props_common import *   # noqa
 
 PROPS = {}
+for _f in sorted(glob.glob(os.path.join(_here, "props.d", "C*.py"))):
+    _pid = os.path.basename(_f)[:-3]
+    _spec = importlib.util.spec_from_file_location("props_" + _pid, _f)
+    _m = importlib.util.module_from_spec(_spec)
+    _spec.loader.exec_module(_m)
+    PROPS[_pid] = _m.P
 
-PROPS["C15"] = {
-    "technique": "stateful property-based testing against an abstract array model (random op sequences + bounded-exhaustive small-scope enumeration), sanitizers as part of the oracle",
-    "level_text": "exploration: every generated/enumerated operation sequence is checked step by step against the array model; violations are shrunk to a minimal replayable sequence. Right level because the property quantifies over unbounded histories: sampling plus exhaustive small scopes is what PBT can give.",
-    "design_ref": "DESIGN.md section 3 C15",
-    "sources": ["harness/props/C15.cpp"],
-    "rule": "random operation sequences (init/resize/set_type/add_frequency/cell,matrix,vector setters/z0+fz0 setters/in-place convert/boundary getters; dims 0..5, indices from {-1,0,n-1,n,n+1}) and bounded-exhaustive enumeration of all sequences over a 9-operation small-scope alphabet (dims 0..2); after every step every getter is compared bit-for-bit with the abstract array model; non-trivial = sequence of >= 2 steps containing a shrink-then-regrow in some dimension, a z0 mode switch, or a boundary-index access; distinct = distinct choice tapes",
-    "assumptions": COMMON_ASSUME + ["arraymodel.hpp is a faithful reading of vnadata(3) (flat row-major storage per frequency; 0/0/50-ohm initial values; preserve/reset rules of the z0 modes)"],
-    "exhaustive_scope": "all operation sequences of the small-scope alphabet up to the depth given by max_size of the enum job",
-    "tiers": tiers(
-        quick=[{"name": "rand", "mode": "run", "count": 20000, "max_size": 100, "shards": 8},
-               {"name": "enum", "mode": "enum", "count": 400000, "max_size": 2, "shards": 1}],
-        thorough=[{"name": "rand", "mode": "run", "count": 40000, "max_size": 100, "shards": 14},
-                  {"name": "enum", "mode": "enum", "count": 100000000, "max_size": 3, "shards": 16, "max_seconds": 1500}],
-    ),
-}
-PROPS["C13"] = {
-    "technique": "stateful property-based testing against an abstract document model (descriptor ASTs printed with random legal whitespace and two independent key quoters), bounded-exhaustive small-scope enumeration, sanitizers in the oracle",
-    "level_text": "exploration: generated and enumerated operation sequences over set/set_subtree/delete/copy/queries/malformed descriptors/quote_key are compared step by step with the document model; failures shrink to a minimal replayable sequence.",
-    "design_ref": "DESIGN.md section 3 C13",
-    "sources": ["harness/props/C13.cpp"],
-    "rule": "random operation sequences (<= 200 ops) and bounded-exhaustive enumeration over a 5-operation alphabet on keys {a,b}, indices {0,1}; after every step the tree read through type/count/keys/get/get_subtree must equal the document model and return values/errno must match vnaproperty(3); non-trivial = sequence whose descriptors mix map and list levels and that contains a replace-of-conflicting-type, a list insert/delete with index shift, or a key needing quotes; distinct = distinct choice tapes",
-    "assumptions": COMMON_ASSUME + ["docmodel.hpp is a faithful reading of vnaproperty(3)", "errno is not compared where two documented causes apply to the same call (missing element met before a malformed tail; insert subscript in a look-up)"],
-    "exhaustive_scope": "all operation sequences of the small-scope alphabet up to the depth given by max_size of the enum job",
-    "tiers": tiers(
-        quick=[{"name": "rand", "mode": "run", "count": 8000, "max_size": 100, "shards": 8},
-               {"name": "enum", "mode": "enum", "count": 3000000, "max_size": 2, "shards": 2, "max_seconds": 120}],
-        thorough=[{"name": "rand", "mode": "run", "count": 100000, "max_size": 100, "shards": 14},
-                  {"name": "enum", "mode": "enum", "count": 100000000, "max_size": 3, "shards": 16, "max_seconds": 1500}],
-    ),
-}
-
+# properties deliberately not claimed: id -> reason (empty: every property is meant to be claimed)
 NOT_APPLICABLE = {}
